@@ -348,6 +348,11 @@ class Discharger:
                         direct.setdefault(f.key, f"{w.path}() at line {w.line}")
                 elif w.kind == "item" and w.root != "local":
                     if isinstance(w.node, ast.Assign):
+                        # a table of the enclosing function that leaves it through sorted(...) only is not order-sensitive
+                        tg = w.node.targets[0]
+                        if f.parent is not None and isinstance(tg, ast.Subscript) and isinstance(tg.value, ast.Name) and \
+                                self._only_read_sorted_closure(f, tg.value.id):
+                            continue
                         direct.setdefault(f.key, f"{w.path} = ... at line {w.line}")
         trans = dict(direct)
         changed = True
@@ -481,6 +486,8 @@ class Discharger:
                         continue
                     if self.oa.is_unordered(fi, mod, t.value):
                         continue
+                    if isinstance(t.value, ast.Name) and fi is not None and self._only_read_sorted(fi, mod, t.value.id):
+                        continue  # a local table whose content leaves the function through sorted(...) only
                     return False, f"`{norm(t)}` is inserted in visiting order"
                 if isinstance(t, ast.Attribute):
                     base = attr_chain(t)
@@ -496,6 +503,65 @@ class Discharger:
             return True, ""
         return False, f"statement `{norm(st)[:50]}` not recognised as commutative"
 
+    def _closure_worklist(self, fi, mod, name: str) -> bool:
+        """`while W: x = W.pop() ... W.append(y)` with a visited table, no early exit, and every result returned through sorted(...)
+        or as a set: which elements are reached does not depend on the visiting order."""
+        loops = [n for n in walk_no_nested(fi.node) if isinstance(n, ast.While) and norm(n.test) == name]
+        if len(loops) != 1:
+            return False
+        lp = loops[0]
+        if not any(isinstance(x, ast.Call) and norm(x.func) == f"{name}.pop" for x in ast.walk(lp)):
+            return False
+        if any(isinstance(x, (ast.Break, ast.Return)) for x in ast.walk(lp)):
+            return False
+        rets = [r for r in walk_no_nested(fi.node) if isinstance(r, ast.Return) and r.value is not None]
+        return bool(rets) and all((isinstance(r.value, ast.Call) and norm(r.value.func) == "sorted") or self.oa.is_unordered(fi, mod, r.value)
+                                  for r in rets)
+
+    def _only_read_sorted_closure(self, f, name: str) -> bool:
+        """`name` is a local of an enclosing function; all its reads (there and in the closures) are membership tests or inside
+        sorted(...)."""
+        top = f.parent
+        while top is not None and name not in local_names(top.node):
+            top = top.parent
+        if top is None:
+            return False
+        if not self._only_read_sorted(top, top.module, name):
+            return False
+        for g in self.ctx.prog.all_funcs():
+            if g.parent is top and name not in local_names(g.node):
+                reads = [x for x in walk_no_nested(g.node) if isinstance(x, ast.Name) and x.id == name and isinstance(x.ctx, ast.Load)]
+                for x in reads:
+                    par = g.module.parents.get(x)
+                    if isinstance(par, ast.Compare) and any(c is x for c in par.comparators) and all(isinstance(o, (ast.In, ast.NotIn)) for o in par.ops):
+                        continue
+                    if isinstance(par, ast.Subscript) and par.value is x and isinstance(par.ctx, ast.Store):
+                        continue
+                    return False
+        return True
+
+    @staticmethod
+    def _only_read_sorted(fi, mod, name: str) -> bool:
+        """Every read of the local `name` is a membership test or happens inside a sorted(...) call."""
+        reads = [x for x in walk_no_nested(fi.node) if isinstance(x, ast.Name) and x.id == name and isinstance(x.ctx, ast.Load)]
+        if not reads:
+            return False
+        for x in reads:
+            par = mod.parents.get(x)
+            if isinstance(par, ast.Compare) and any(c is x for c in par.comparators) and all(isinstance(o, (ast.In, ast.NotIn)) for o in par.ops):
+                continue
+            if isinstance(par, ast.Subscript) and par.value is x and isinstance(par.ctx, ast.Store):
+                continue
+            cur, ok = x, False
+            while cur is not None and not isinstance(cur, ast.stmt):
+                if isinstance(cur, ast.Call) and norm(cur.func) == "sorted":
+                    ok = True
+                    break
+                cur = mod.parents.get(cur)
+            if not ok:
+                return False
+        return True
+
     @staticmethod
     def _test_only_on_element(test: ast.AST, lv: Set[str]) -> bool:
         """Conditions like `a is cls or b is cls` / `(t1, t2) in self.replaces` (a set not written by the loop)."""
@@ -508,6 +574,8 @@ class Discharger:
             if f.attr in ("add", "discard", "remove", "update") and (
                     self.oa.is_unordered(fi, mod, recv) or f.attr in ("add", "discard")):
                 return True, ""
+            if f.attr in ("append", "extend") and isinstance(recv, ast.Name) and fi is not None and self._closure_worklist(fi, mod, recv.id):
+                return True, ""     # feeding the work list of a reachability closure whose result leaves sorted
             if f.attr in ("append", "insert", "extend", "write", "appendleft"):
                 return False, f"`{norm(call)[:60]}` records elements in visiting order"
         tgs = self.ctx.cg.resolve_call(fi, mod, call)
